@@ -221,8 +221,9 @@ CLAIMS = {
              "entry and proved at every exit (also for a string passed by non-const reference), which makes it hold "
              "after every sequence of operations. The four iterator classes are decided the same way with the "
              "invariant 'index is the end marker or < length()' from each of its cases. Not decided: "
-             "'length equals strlen' beyond the terminator at the length, iterator-taking overloads, operator[] outside "
-             "its documented precondition.",
+             "'length equals strlen' beyond the terminator at the length, the one overload taking std::string iterators, "
+             "operator[] outside its documented precondition. Overloads taking iterators of the string are analysed for "
+             "every combination of end-marker / inside positions of valid iterators.",
         note="trusted base: clang front end, extractor, cv/lin.py + cv/bounds.py, models of mem*/vsnprintf/std::string; "
              "const char* arguments are C strings (and hold count characters where a count is passed); operator[] "
              "under its documented precondition",
